@@ -24,6 +24,9 @@ def main() -> int:
         for p in CLAIMED:
             work.append((f"{name}", os.path.join(d, "patch.diff"), p, "/repo"))
     bad = 0
+    from sa.check import preload
+
+    preload()
     with ProcessPoolExecutor(max_workers=16) as ex:
         for (name, _pd, pid, _r), r in zip(work, ex.map(_run_seed, work)):
             if r["status"] == "n/a":
